@@ -35,6 +35,12 @@ def comb_event(pp, tid, A, kind, size, via):
     return ev
 
 
+def _job(args):
+    import peptacular as pp
+    warnings.simplefilter("ignore")
+    return comb_event(pp, *args)
+
+
 def count(kind, n, k):
     import math
     if kind == "product":
@@ -53,7 +59,7 @@ def run(tier, seed, rep):
     thorough = tier == "thorough"
     r = core.model_check("MC_Combinatoric", "MC_Combinatoric.cfg", workers=4)
     rep.add_mc("MC_Combinatoric (counts and order of the reference enumerations)", r)
-    evs = []
+    jobs = []
     i = 0
     for _ in range(600 if thorough else 90):
         n = rnd.choice([1, 2, 3, 3, 4, 4, 5, 6])
@@ -65,8 +71,9 @@ def run(tier, seed, rep):
                 k = n if size == -1 else size
                 if count(kind, n, k) > (3000 if thorough else 800):
                     continue
-                evs.append(comb_event(pp, f"c{i}", A, kind, size, "method" if i % 3 else "module"))
+                jobs.append((f"c{i}", A, kind, size, "method" if i % 3 else "module"))
                 i += 1
+    evs = core.pmap(_job, jobs)
     res = core.validate_traces("Trace_Annotation", evs, "C19", per_shard_max=400, min_per_shard=30)
     rep.add_trace("expansions", evs, res,
                   sig=lambda e: (e["kind"], len(e["A"]["seq"]), e["size"], e["via"],
